@@ -1,0 +1,94 @@
+//go:build verif
+
+package txcache
+
+import "sort"
+
+// Read-only accessors for the simulation checks in /verif; compiled only with -tags verif.
+
+// VerifSenderGracePeriodLowerBound and VerifSenderGracePeriodUpperBound re-export the grace-period window
+// (number of consecutive failed selections for which a sender with an initial gap may still give one transaction).
+const VerifSenderGracePeriodLowerBound = senderGracePeriodLowerBound
+
+// VerifSenderGracePeriodUpperBound - see VerifSenderGracePeriodLowerBound
+const VerifSenderGracePeriodUpperBound = senderGracePeriodUpperBound
+
+// VerifNumScoreBuckets is the number of score buckets the senders are sorted into
+const VerifNumScoreBuckets = numberOfScoreChunks
+
+// VerifTx describes one transaction held in a sender's list
+type VerifTx struct {
+	Hash     []byte
+	Nonce    uint64
+	GasPrice uint64
+	Size     int64
+}
+
+// VerifSender describes one sender's list, in list order, and the constraints in force for it
+type VerifSender struct {
+	Sender              string
+	Txs                 []VerifTx
+	MaxNumTxs           uint32
+	MaxNumBytes         uint32
+	TotalBytesCounter   int64
+	ScoreBucket         uint32
+	InScoreBucket       bool
+	AccountNonceKnown   bool
+	AccountNonce        uint64
+	NumFailedSelections int64
+	Sweepable           bool
+}
+
+// VerifSenders enumerates the per-sender lists held by the cache, sorted by sender key
+func (cache *TxCache) VerifSenders() []VerifSender {
+	keys := cache.txListBySender.backingMap.Keys()
+	sort.Strings(keys)
+
+	result := make([]VerifSender, 0, len(keys))
+	for _, key := range keys {
+		listForSender, ok := cache.txListBySender.getListForSender(key)
+		if !ok {
+			continue
+		}
+
+		result = append(result, listForSender.verifDescribe())
+	}
+
+	return result
+}
+
+func (listForSender *txListForSender) verifDescribe() VerifSender {
+	listForSender.mutex.RLock()
+	defer listForSender.mutex.RUnlock()
+
+	score := listForSender.getLastComputedScore()
+	if score > numberOfScoreChunks-1 {
+		score = numberOfScoreChunks - 1
+	}
+
+	described := VerifSender{
+		Sender:              listForSender.sender,
+		Txs:                 make([]VerifTx, 0, listForSender.items.Len()),
+		MaxNumTxs:           listForSender.constraints.maxNumTxs,
+		MaxNumBytes:         listForSender.constraints.maxNumBytes,
+		TotalBytesCounter:   listForSender.totalBytes.Get(),
+		ScoreBucket:         score,
+		InScoreBucket:       listForSender.GetScoreChunk() != nil,
+		AccountNonceKnown:   listForSender.accountNonceKnown.IsSet(),
+		AccountNonce:        listForSender.accountNonce.Get(),
+		NumFailedSelections: listForSender.numFailedSelections.Get(),
+		Sweepable:           listForSender.sweepable.IsSet(),
+	}
+
+	for element := listForSender.items.Front(); element != nil; element = element.Next() {
+		value := element.Value.(*WrappedTransaction)
+		described.Txs = append(described.Txs, VerifTx{
+			Hash:     value.TxHash,
+			Nonce:    value.Tx.GetNonce(),
+			GasPrice: value.Tx.GetGasPrice(),
+			Size:     value.Size,
+		})
+	}
+
+	return described
+}
